@@ -28,6 +28,9 @@ package godi
 //@ field provider.graph immutable
 //@ field provider.analyzer immutable
 //@ field provider.id immutable
+//@ field collection.services immutable
+//@ field collection.groups immutable
+//@ field collection.analyzer immutable
 //@ field Descriptor.Lifetime immutable
 //@ field Descriptor.Type immutable
 //@ field Descriptor.Group immutable
@@ -515,25 +518,31 @@ package godi
 //@ func collection.registerDescriptor
 //@   requires maps: regmaps(r) && descriptor != nil
 //@   safety[C15,C17]
+//@   let reserved = descriptor.Type in reservedTypes
 //@   let single = old(descriptor.Key) != nil || descriptor.Group == ""
 //@   let tk = mk("TypeKey", descriptor.Type, old(descriptor.Key))
 //@   let gk = mk("GroupKey", descriptor.Type, descriptor.Group)
-//@   ensures[C17,C15] duplicate_rejected_unchanged: single && old(tk in r.services) ==> result != nil
+//@   ensures[C18,C17,C15] reserved_types_rejected: reserved ==> result != nil && typeis(result, "*ValidationError")
 //@        && (forall k TypeKey :: ((k in r.services) <==> old(k in r.services)) && r.services[k] == old(r.services[k]))
 //@        && (forall k GroupKey :: ((k in r.groups) <==> old(k in r.groups)) && r.groups[k] == old(r.groups[k]))
 //@        && r.allDescriptors == old(r.allDescriptors)
-//@   ensures[C15] duplicate_is_classifiable: single && old(tk in r.services) ==> (typeis(result, "*AlreadyRegisteredError")
+//@   ensures[C17,C15] duplicate_rejected_unchanged: !reserved && single && old(tk in r.services) ==> result != nil
+//@        && (forall k TypeKey :: ((k in r.services) <==> old(k in r.services)) && r.services[k] == old(r.services[k]))
+//@        && (forall k GroupKey :: ((k in r.groups) <==> old(k in r.groups)) && r.groups[k] == old(r.groups[k]))
+//@        && r.allDescriptors == old(r.allDescriptors)
+//@   ensures[C15] duplicate_is_classifiable: !reserved && single && old(tk in r.services) ==> (typeis(result, "*AlreadyRegisteredError")
 //@        || (typeis(result, "*RegistrationError") && typeis(as(result, "*RegistrationError").Cause, "*AlreadyRegisteredError")))
-//@   ensures[C17,C04] single_registered: single && !old(tk in r.services) ==> result == nil && (tk in r.services) && r.services[tk] == descriptor
+//@   ensures[C17,C04] single_registered: !reserved && single && !old(tk in r.services) ==> result == nil && (tk in r.services) && r.services[tk] == descriptor
 //@        && (forall k TypeKey :: k != tk ==> ((k in r.services) <==> old(k in r.services)) && r.services[k] == old(r.services[k]))
 //@        && (forall k GroupKey :: ((k in r.groups) <==> old(k in r.groups)) && r.groups[k] == old(r.groups[k]))
-//@   ensures[C17,C04] group_member_appended: !single ==> result == nil && (gk in r.groups) && len(r.groups[gk]) == len(old(r.groups[gk])) + 1
+//@   ensures[C17,C04] group_member_appended: !reserved && !single ==> result == nil && (gk in r.groups) && len(r.groups[gk]) == len(old(r.groups[gk])) + 1
 //@        && r.groups[gk][len(old(r.groups[gk]))] == descriptor && (forall i int :: 0 <= i && i < len(old(r.groups[gk])) ==> r.groups[gk][i] == old(r.groups[gk])[i])
 //@        && descriptor.Key == box(len(old(r.groups[gk])) + 1, "int")
 //@        && (forall k GroupKey :: k != gk ==> ((k in r.groups) <==> old(k in r.groups)) && r.groups[k] == old(r.groups[k]))
 //@        && (forall k TypeKey :: ((k in r.services) <==> old(k in r.services)) && r.services[k] == old(r.services[k]))
 //@   ensures[C17] tracked_for_build: result == nil ==> len(r.allDescriptors) == len(old(r.allDescriptors)) + 1 && r.allDescriptors[len(old(r.allDescriptors))] == descriptor
 //@        && (forall i int :: 0 <= i && i < len(old(r.allDescriptors)) ==> r.allDescriptors[i] == old(r.allDescriptors)[i])
+//@   ensures[C18] success_means_not_reserved: result == nil ==> !reserved
 //
 //@ func collection.Contains
 //@   requires maps: regmaps(r)
@@ -896,3 +905,61 @@ package godi
 //@   ensures[C04] resolves_from_given_provider: provider != nil && group != "" ==> ncalls("Provider.GetGroup") == 1 && callarg("Provider.GetGroup", 0, 0) == provider && callarg("Provider.GetGroup", 0, 2) == group
 //@   loop 1
 //@     invariant in_order: len(results) == idx && (forall i int :: 0 <= i && i < idx ==> results[i] == services[i])
+//
+// ---------------------------------------------------------------------------------------------
+// addService: every registration form funnels into registerDescriptor (C17, C04, C18).
+//@ func newDescriptorWithAnalyzer
+//@   safety off
+//@   nopanic
+//@   ensures[C15] value_xor_error: (result1 == nil) <==> (result0 != nil)
+//@   ensures[C04] keeps_lifetime: result1 == nil ==> result0.Lifetime == lifetime && fresh(result0)
+//@ func Descriptor.Validate
+//@   safety off
+//@   nopanic
+//@   requires recv: d != nil
+//@   ensures[C15] valid_has_a_type: result == nil ==> d.Type != nil
+//@ func AddOption.applyAddOption
+//@   nocheck
+//@   nopanic
+//@   modifies addOptions.Name, addOptions.Group, addOptions.As
+//@ func addOptions.Validate
+//@   safety off
+//@   nopanic
+//@   requires recv: o != nil
+//
+//@ func collection.addService
+//@   safety[C15,C17]
+//@   requires maps: regmaps(r) && r.analyzer != nil
+//@   ensures[C15] nil_constructor_rejected: service == nil ==> typeis(result, "*ValidationError") && as(result, "*ValidationError").Cause == ErrConstructorNil && ncalls("collection.registerDescriptor") == 0
+//@   ensures[C17] registers_in_this_collection_only: forall c int :: 0 <= c && c < ncalls("collection.registerDescriptor") ==> callarg("collection.registerDescriptor", c, 0) == r
+//@        && callarg("collection.registerDescriptor", c, 1, "*Descriptor") != nil && callarg("collection.registerDescriptor", c, 1, "*Descriptor").Lifetime == lifetime
+//@   ensures[C17] success_means_every_registration_succeeded: result == nil ==> (forall c int :: 0 <= c && c < ncalls("collection.registerDescriptor") ==> callret("collection.registerDescriptor", c, 0) == nil)
+//@   ensures[C17] first_failed_registration_stops: forall c int :: 0 <= c && c < ncalls("collection.registerDescriptor") && callret("collection.registerDescriptor", c, 0) != nil ==> c == ncalls("collection.registerDescriptor") - 1 && result != nil
+//@   ensures[C17,C15] rejected_only_for_a_stated_reason: result != nil ==> (ncalls("newDescriptorWithAnalyzer") == 0
+//@        || callret("newDescriptorWithAnalyzer", 0, 1) != nil
+//@        || (ncalls("Descriptor.Validate") == 1 && callret("Descriptor.Validate", 0, 0) != nil)
+//@        || (typeis(result, "*ValidationError") && ncalls("addOptions.Validate") == 0)
+//@        || (ncalls("addOptions.Validate") == 1 && callret("addOptions.Validate", 0, 0) != nil)
+//@        || (ncalls("reflection.Analyzer.Analyze") == 1 && callret("reflection.Analyzer.Analyze", 0, 1) != nil)
+//@        || typeis(result, "*TypeMismatchError")
+//@        || (ncalls("collection.registerDescriptor") >= 1 && callret("collection.registerDescriptor", ncalls("collection.registerDescriptor") - 1, 0) != nil))
+//@   ensures[C17] rejected_registration_leaves_the_collection_unchanged: result != nil ==> (forall c int :: 0 <= c && c < ncalls("collection.registerDescriptor") ==> callret("collection.registerDescriptor", c, 0) != nil)
+//@   loop 1
+//@     invariant no_registration_yet: ncalls("collection.registerDescriptor") == 0 && ncalls("reflection.Analyzer.Analyze") == 0 && ncalls("addOptions.Validate") == 0
+//@        && ncalls("newDescriptorWithAnalyzer") == 1 && callret("newDescriptorWithAnalyzer", 0, 1) == nil && ncalls("Descriptor.Validate") == 1 && callret("Descriptor.Validate", 0, 0) == nil
+//@        && descriptor != nil && descriptor.Lifetime == lifetime && options != nil && fresh(options)
+//@   loop 2
+//@     invariant all_succeeded_so_far: forall c int :: 0 <= c && c < ncalls("collection.registerDescriptor") ==> callret("collection.registerDescriptor", c, 0) == nil
+//@        && callarg("collection.registerDescriptor", c, 0) == r && callarg("collection.registerDescriptor", c, 1, "*Descriptor") != nil && callarg("collection.registerDescriptor", c, 1, "*Descriptor").Lifetime == lifetime
+//@     invariant phase: ncalls("newDescriptorWithAnalyzer") == 1 && callret("newDescriptorWithAnalyzer", 0, 1) == nil && ncalls("Descriptor.Validate") == 1 && callret("Descriptor.Validate", 0, 0) == nil
+//@        && ncalls("addOptions.Validate") == 1 && callret("addOptions.Validate", 0, 0) == nil && ncalls("reflection.Analyzer.Analyze") == 1 && callret("reflection.Analyzer.Analyze", 0, 1) == nil && descriptor != nil && descriptor.Lifetime == lifetime
+//@   loop 4
+//@     invariant all_succeeded_so_far: forall c int :: 0 <= c && c < ncalls("collection.registerDescriptor") ==> callret("collection.registerDescriptor", c, 0) == nil
+//@        && callarg("collection.registerDescriptor", c, 0) == r && callarg("collection.registerDescriptor", c, 1, "*Descriptor") != nil && callarg("collection.registerDescriptor", c, 1, "*Descriptor").Lifetime == lifetime
+//@     invariant phase: ncalls("newDescriptorWithAnalyzer") == 1 && callret("newDescriptorWithAnalyzer", 0, 1) == nil && ncalls("Descriptor.Validate") == 1 && callret("Descriptor.Validate", 0, 0) == nil
+//@        && ncalls("addOptions.Validate") == 1 && callret("addOptions.Validate", 0, 0) == nil && ncalls("reflection.Analyzer.Analyze") == 1 && callret("reflection.Analyzer.Analyze", 0, 1) == nil && descriptor != nil && descriptor.Lifetime == lifetime
+//@   loop 5
+//@     invariant all_succeeded_so_far: forall c int :: 0 <= c && c < ncalls("collection.registerDescriptor") ==> callret("collection.registerDescriptor", c, 0) == nil
+//@        && callarg("collection.registerDescriptor", c, 0) == r && callarg("collection.registerDescriptor", c, 1, "*Descriptor") != nil && callarg("collection.registerDescriptor", c, 1, "*Descriptor").Lifetime == lifetime
+//@     invariant phase: ncalls("newDescriptorWithAnalyzer") == 1 && callret("newDescriptorWithAnalyzer", 0, 1) == nil && ncalls("Descriptor.Validate") == 1 && callret("Descriptor.Validate", 0, 0) == nil
+//@        && ncalls("addOptions.Validate") == 1 && callret("addOptions.Validate", 0, 0) == nil && ncalls("reflection.Analyzer.Analyze") == 1 && callret("reflection.Analyzer.Analyze", 0, 1) == nil && descriptor != nil && descriptor.Lifetime == lifetime
